@@ -563,7 +563,7 @@ pub fn content_sweep(ctx: &Ctx, spaces: &[ContentSpace]) -> (SweepOut, Vec<(Stri
 // ---------------------------------------------------------------------------------------------
 // comment sweep
 
-pub const COMMENT_CHARS: &[char] = &['\\', '\n', 'n', 'ü', '😀', ' '];
+pub const COMMENT_CHARS: &[char] = &['\\', '\n', 'n', 'ü', '😀', ' ', '\t', '\r', 't'];
 pub const COMMENT_LEVELS: usize = 5;
 
 fn r(cells: &[Option<&str>]) -> Row {
